@@ -555,6 +555,9 @@ class Machine:
             if self.abstract and isinstance(v, Opaque):
                 if hasattr(v, "fid"):       # a fallible result inspected by `match` counts as examined (fault-propagation harness)
                     st.ghost["examined"] = st.ghost.get("examined", ()) + (v.fid,)
+                    dv = self.fresh("discr")
+                    st.ghost["discr_of"] = st.ghost.get("discr_of", ()) + ((str(dv), v.fid),)
+                    return dv
                 return self.fresh("discr")
             raise Unsupported("discriminant of %r" % (v,))
         # aggregates
@@ -636,11 +639,12 @@ class Machine:
             for k_, v_ in st.heap.items():
                 if k_[0] == "L" and k_[1] == fr.fid and z3.is_expr(v_) and (z3.is_true(v_) or z3.is_false(v_) or z3.is_bv_value(v_)):
                     sig.append((k_[2], str(v_)))
-            sig = (fr.fid, fr.bb, tuple(sorted(map(str, sig[2:]))), sig[0], sig[1], self.sig_extra(st))
+            sig = (fr.fid, fr.bb, tuple(sorted(map(str, sig[2:]))), sig[0], sig[1], self.sig_extra(st), bool(st.ghost.get("took_err")))
             seen = st.ghost.setdefault("seen", {})
             cnt = seen.setdefault((fr.fid, fr.bb), [])
             if sig in cnt:
                 self.stats["loops_closed"] = self.stats.get("loops_closed", 0) + 1
+                self.on_close(st)
                 return []           # same abstract state as an earlier visit of this block: already explored from there
             cnt.append(sig)
             if len(cnt) > 48:
@@ -684,6 +688,10 @@ class Machine:
                     and not any(str(v) in str(c_) for c_ in st.pc[-6:])
                 if nd or self.feasible(st, cond):
                     s2 = st.fork()
+                    if k != "0" and z3.is_const(v):
+                        for dn_, fid_ in st.ghost.get("discr_of", ()):
+                            if dn_ == str(v):       # the Err arm of a `match` on a fallible result
+                                s2.ghost["took_err"] = s2.ghost.get("took_err", ()) + (fid_,)
                     s2.pc.append(cond)
                     s2.frames[-1].bb = tgt
                     out.append(s2)
@@ -745,6 +753,9 @@ class Machine:
         self.on_end(st, how)
 
     def on_end(self, st, how):  # overridden by harnesses
+        pass
+
+    def on_close(self, st):     # overridden by harnesses: obligations that must hold when a loop iteration ends
         pass
 
     def sig_extra(self, st):    # overridden by harnesses: tracked counters as a string
